@@ -344,6 +344,14 @@ def _sp_at_head(ex, node, st):
     return ex.ev(node.args[1], sub)
 
 
+def _sp_aslist(ex, node, st):
+    """aslist(x): x if it is a list, else the one-element list [x]"""
+    v = ex.ev(node.args[0], st)
+    if isinstance(v, PyTuple) or isinstance(v.ty, TList):
+        return v
+    return PyTuple([v], True)
+
+
 def _sp_implies(ex, node, st):
     a = truthy(ex.ev(node.args[0], st))
     saved = list(st.guards)
@@ -439,7 +447,7 @@ def _sp_lookup(ex, node, st):
     return ex.subscript(m, k, st)
 
 
-_SPEC_PRIMS = {'old': _sp_old, 'at_head': _sp_at_head, 'implies': _sp_implies, 'iff': _sp_iff,
+_SPEC_PRIMS = {'old': _sp_old, 'aslist': _sp_aslist, 'at_head': _sp_at_head, 'implies': _sp_implies, 'iff': _sp_iff,
                'forall': _sp_forall, 'exists': _sp_exists,
                'bound': _sp_bound, 'is_some': _sp_some, 'val': _sp_val,
                'ite': _sp_ite, 'indom': _sp_domain, 'at': _sp_lookup,
